@@ -367,6 +367,33 @@ func genTied(r *Rand) YHistory {
 	}
 }
 
+// genRacing: 4-8 calls for ONE epoch released together on real threads (attenv/racing.go), every
+// environment call succeeding at once, every validator with an account: whatever the interleaving, each
+// validator of the duties must be signed for exactly once and be in the attested set afterwards.
+func genRacing(r *Rand, trials int) YHistory {
+	h := History{SPE: pick(r, []uint64{1, 8, 32})}
+	base := uint64(r.Range(0, 40))
+	pool := make([]uint64, r.Range(1, 4))
+	for i := range pool {
+		pool[i] = uint64(10*i + r.Intn(10))
+	}
+	lead := genDuty(r, h.SPE, base, pool)
+	for i, n := 0, r.Range(4, 8); i < n; i++ {
+		d := lead
+		if r.Chance(1, 3) {
+			d = genDuty(r, h.SPE, base, pool)
+		}
+		src := base
+		if base > 0 {
+			src = base - 1
+		}
+		h.Runs = append(h.Runs, Run{Duty: d, Script: Script{
+			Data:     Data{Slot: d.Slot, Root: uint64(r.Range(1, 9)), Src: src, SrcRoot: 2, Tgt: base, TgtRoot: 3},
+			Accounts: sorted(pool)}})
+	}
+	return YHistory{History: h, Racing: trials}
+}
+
 // tags computes the input families of a history from the input alone.
 func tags(h History) (tags []string, nontrivial bool) {
 	set := map[string]bool{}
@@ -449,6 +476,18 @@ func tags(h History) (tags []string, nontrivial bool) {
 			}
 		}
 	}
+	racing := len(h.Runs) > 0
+	for _, r := range h.Runs {
+		if r.Timing != (Timing{}) {
+			racing = false
+		}
+	}
+	if racing {
+		delete(set, "tied-calls")
+		delete(set, "tied-starts-in-epoch")
+		delete(set, "tied-first-calls-of-epoch")
+		set["racing-calls"] = true
+	}
 	if overlap {
 		set["overlapping"] = true
 	} else {
@@ -503,10 +542,26 @@ func TestC01(t *testing.T) {
 	for i := 0; i < n/3; i++ {
 		hs = append(hs, genTied(tiedRng.Fork()))
 	}
+	// racing histories: a handful, many trials each
+	racingRng := NewRand(Seed() ^ 0x726163696e67)
+	for i := 0; i < 4+n/150; i++ {
+		hs = append(hs, genRacing(racingRng.Fork(), 200))
+	}
 	for k, yh := range hs {
 		h := yh.History
 		var obs Observed
-		if yh.Gated {
+		if yh.Racing > 0 {
+			var hit int
+			obs, hit = RunRacing(t, h, yh.Racing)
+			for i := range h.Runs {
+				h.Runs[i].Timing = Timing{}
+			}
+			col.Count("racing")
+			col.Stats.Dist["racing:trials"] += yh.Racing
+			if hit > 0 {
+				col.Count("racing:validator-signed-twice-in-some-trial")
+			}
+		} else if yh.Gated {
 			var ys YieldStats
 			obs, ys = RunHistoryYield(t, yh)
 			col.Count("gated")
